@@ -16,6 +16,12 @@ def container_super_hook(base_kind: str):
     """super().__init__ of nn.Sequential(*mods) / nn.ModuleList(iterable)."""
 
     def hook(it: Any, selfv: Any, cls: Any, meth: str, args: List[Any], kwargs: Dict[str, Any]):
+        if meth == "forward" and base_kind == "Sequential" and isinstance(selfv, Obj) and isinstance(selfv.attrs.get("_modules"), dict) and len(args) == 1 and not kwargs:
+            # nn.Sequential.forward: every entry applied in order, each to the previous result
+            x = args[0]
+            for m in selfv.attrs["_modules"].values():
+                x = it.call_function(m, [x], {})
+            return x
         if meth != "__init__" or not isinstance(selfv, Obj):
             return NotImplemented
         if base_kind == "Sequential":
